@@ -68,8 +68,18 @@ def _mutant(idx, m):
     killed = any(m["kills"] in (l or "") for l in labels)
     if s["tool_error"]:
         return {"mutant": idx, "status": "undecided", "detail": s["tool_error"][:200]}
-    return {"mutant": idx, "status": "killed" if killed else ("killed-by-other" if fl else "SURVIVED"),
-            "expected": m["kills"], "failed": sorted(set(labels))[:6]}
+    if killed:
+        st = "killed"
+    elif fl:
+        st = "killed-by-other"
+    elif und or not s["ok"]:
+        # only scaffolding (e.g. a loop invariant that carries the property) fails: the check would exit 2
+        # (undecided) on this change — flagged, never a silent pass, but not a VIOLATION either
+        st = "flagged-undecided"
+    else:
+        st = "SURVIVED"
+    return {"mutant": idx, "status": st, "expected": m["kills"], "failed": sorted(set(labels))[:6],
+            "scaffold_failures": [u["message"] for u in und][:3]}
 
 
 def run(pid, cfg, results, seed):
@@ -103,6 +113,7 @@ def run(pid, cfg, results, seed):
             elif r["status"] in ("stale", "undecided"):
                 undecided.append("selftest mutant %d is %s: %s" % (r["mutant"], r["status"], r.get("detail")))
     info["selftest_killed"] = len([r for r in info["selftest"] if r["status"].startswith("killed")])
+    info["selftest_flagged_undecided"] = len([r for r in info["selftest"] if r["status"] == "flagged-undecided"])
     info["selftest_total"] = len(info["selftest"])
     info["undecided"] = undecided
     return info
